@@ -54,6 +54,11 @@ pub struct HCase {
     /// deadline: -2 = None; -1 = virtual clock that never expires; k>=0 expires at probe k
     pub fuel: i64,
     pub fail_at: i64,
+    /// which public function is called: "dispatch_deadline" (algorithms::diff_deadline, default),
+    /// "dispatch" (algorithms::diff), "module" (myers::diff / patience::diff / lcs::diff),
+    /// "module_deadline" (their diff_deadline), "slices" / "slices_deadline"
+    /// (algorithms::diff_slices(_deadline); whole slices, stack "none" only)
+    pub entry: &'static str,
 }
 
 impl HCase {
@@ -70,6 +75,7 @@ impl HCase {
             stack: "none",
             fuel: -2,
             fail_at: -1,
+            entry: "dispatch_deadline",
         }
     }
 }
@@ -86,7 +92,16 @@ where
     };
     let or: Range<usize> = c.os..c.oe;
     let nr: Range<usize> = c.ns..c.ne;
-    algorithms::diff_deadline(c.alg, d, old, or, new, nr, deadline)
+    match (c.entry, c.alg) {
+        ("dispatch", _) if deadline.is_none() => algorithms::diff(c.alg, d, old, or, new, nr),
+        ("module", Algorithm::Myers) if deadline.is_none() => algorithms::myers::diff(d, old, or, new, nr),
+        ("module", Algorithm::Patience) if deadline.is_none() => algorithms::patience::diff(d, old, or, new, nr),
+        ("module", Algorithm::Lcs) if deadline.is_none() => algorithms::lcs::diff(d, old, or, new, nr),
+        ("module_deadline", Algorithm::Myers) | ("module", Algorithm::Myers) => algorithms::myers::diff_deadline(d, old, or, new, nr, deadline),
+        ("module_deadline", Algorithm::Patience) | ("module", Algorithm::Patience) => algorithms::patience::diff_deadline(d, old, or, new, nr, deadline),
+        ("module_deadline", Algorithm::Lcs) | ("module", Algorithm::Lcs) => algorithms::lcs::diff_deadline(d, old, or, new, nr, deadline),
+        _ => algorithms::diff_deadline(c.alg, d, old, or, new, nr, deadline),
+    }
 }
 
 fn run_stack<L>(c: &HCase, old: &L, new: &L) -> Result<(), i64>
@@ -177,6 +192,17 @@ pub fn exec(c: &HCase) -> HResult {
                 hi: c.ne,
             };
             run_stack(c, &old, &new)
+        } else if (c.entry == "slices" || c.entry == "slices_deadline") && c.stack == "none" && c.index == "slice" {
+            // the slice-level convenience functions (whole slices only)
+            let old = rec::items(&c.old[c.os..c.oe]);
+            let new = rec::items(&c.new[c.ns..c.ne]);
+            let mut d = Rec::new(c.fail_at);
+            if c.entry == "slices" && c.fuel == -2 {
+                algorithms::diff_slices(c.alg, &mut d, &old, &new)
+            } else {
+                let deadline = if c.fuel == -2 { None } else { Some(rec::far_future()) };
+                algorithms::diff_slices_deadline(c.alg, &mut d, &old, &new, deadline)
+            }
         } else if c.index == "alias" {
             // old and new are the same object (c.old == c.new): two windows of one buffer
             let buf = rec::items(&c.old);
@@ -202,7 +228,7 @@ pub fn exec(c: &HCase) -> HResult {
 pub fn start_json(c: &HCase, case: i64) -> Value {
     json!({"ev":"start","case":case,"alg":alg_name(c.alg),"old":seq_json(&c.old),"new":seq_json(&c.new),
            "os":c.os,"oe":c.oe,"ns":c.ns,"ne":c.ne,"index":c.index,"stack":c.stack,
-           "fuel":c.fuel,"fail_at":c.fail_at})
+           "fuel":c.fuel,"fail_at":c.fail_at,"entry":c.entry})
 }
 
 /// run and write the trace of one case; returns the result for further use
@@ -455,8 +481,9 @@ pub fn drive_c01(a: &Args, out: &mut Out) {
     let pairs = base_pairs(a, &mut rng);
     for (i, (x, y)) in pairs.iter().enumerate() {
         for alg in ALGS {
-            // whole slices
-            let c = HCase::simple(alg, x, y);
+            // whole slices, through every public entry point in turn
+            let mut c = HCase::simple(alg, x, y);
+            c.entry = ["dispatch_deadline", "dispatch", "module", "module_deadline", "slices", "slices_deadline"][i % 6];
             let base = run_case(&c, out);
             // sub-range of padded sequences, alternating index kinds
             let (po, os, oe, pn, ns, ne) = gen::pad(&mut rng, x, y, 2);
@@ -466,6 +493,7 @@ pub fn drive_c01(a: &Args, out: &mut Out) {
             c2.ns = ns;
             c2.ne = ne;
             c2.index = if i % 2 == 0 { "window" } else { "slice" };
+            c2.entry = ["module", "dispatch_deadline", "dispatch", "module_deadline"][(i / 2) % 4];
             let sub = run_case(&c2, out);
             // both sides are windows of ONE buffer (the same object passed twice): x ++ y with
             // the two halves as ranges, or two arbitrary (overlapping, equally long) windows
